@@ -13,9 +13,17 @@ impl Scenario for C03 {
         "Seeded sessions: 1-3 threads x 1-3 channels with up to 4 consumers per thread (some never drained), gets, return listeners registered before the first publish. The broker generates a valid history: 0-6 deliveries per consumer, bodies 0..3P+1 bytes split arbitrarily (whole, 1-byte frames, random, tiny pieces), channels interleaved at frame boundaries by the output mux, the byte stream segmented (whole / MTU / <=64 B / 1 byte / random) with gaps, short reads and spurious wake-ups. Oracle: per consumer received == sent (all fields, order), each get == the content generated for that get, return listener == returns sent (prefix rule after a round trip). A hang while a lazy consumer holds messages is a violation. Non-trivial = >=1 content body arrived in >=2 body frames AND the mux interleaved another channel's frame or a segment boundary fell inside a frame (>=1 would-block read); distinct = schedule trace hash.".to_string()
     }
     fn plan(&self, thorough: bool, seed: u64) -> Vec<CaseSpec> {
-        plan_random("C03", "inbound", seed, if thorough { 100_000 } else { 5_000 })
+        let mut v = plan_random("C03", "inbound", seed, if thorough { 100_000 } else { 5_000 });
+        // a consumer that never drains while tens of thousands of deliveries pile up for it
+        for (i, s) in seeds_for("C03", "flood", seed, if thorough { 32 } else { 4 }).into_iter().enumerate() {
+            v.push(CaseSpec { family: "flood".into(), seed: s, params: vec![i as i64], choices: None });
+        }
+        v
     }
     fn run_case(&self, spec: &CaseSpec, text: bool) -> CaseReport {
+        if spec.family == "flood" {
+            return run_flood(spec, text);
+        }
         let mut cs = spec.stream();
         let mut g = GenCfg::default();
         g.max_threads = 3;
@@ -63,4 +71,73 @@ impl Scenario for C03 {
         rep.distinct = rep.trace_hash;
         rep
     }
+}
+
+/// One consumer is flooded and never reads; another channel of the same connection keeps working; in the end
+/// every delivery is there, once, in order.
+fn run_flood(spec: &CaseSpec, text: bool) -> CaseReport {
+    use crate::broker::BrokerCfg;
+    use crate::client::*;
+    use crate::session::*;
+    let mut cs = spec.stream();
+    let n = [70_000u32, 1_000, 70_000, 140_000][spec.params.first().copied().unwrap_or(0) as usize % 4];
+    let mut broker = BrokerCfg::default();
+    broker.deliveries_for_queue = vec![("q.flood".to_string(), n), ("q.other".to_string(), 3)];
+    broker.deliveries_min = 0;
+    broker.deliveries_max = 0;
+    broker.body_max = 8;
+    broker.fixed_consumer_tags = true;
+    broker.seg_mode = pick(&mut cs, "flood_seg", &[crate::broker::SegMode::Whole, crate::broker::SegMode::Mtu]).clone();
+    broker.mux_burst_max = *pick(&mut cs, "flood_burst", &[1u32, 8, 64]);
+    broker.s2c_lat_min_ns = 1_000;
+    broker.s2c_lat_max_ns = 1_000;
+    let mut net = crate::stream::NetCfg::default();
+    net.c2s_lat_min_ns = 1_000;
+    net.c2s_lat_max_ns = 1_000;
+    let qos = |c: u16| Op::Qos { size: 0, count: c, global: false };
+    let consume = |q: &str| Op::Consume { queue: q.to_string(), no_local: false, no_ack: true, exclusive: false, args: 0, via_queue: false };
+    let ops = vec![
+        (0usize, consume("q.flood")),
+        (1, consume("q.other")),
+        (1, qos(1)),
+        // the reply queues up behind the flood on that channel: when it is here, everything has been received
+        (0, qos(2)),
+        (1, qos(3)),
+        (0, Op::Cancel { slot: 0 }),
+        (1, Op::Cancel { slot: 1 }),
+        (0, Op::Drain { slot: 0, max: None, acks: vec![], via_consumer: false }),
+        (1, Op::Drain { slot: 1, max: None, acks: vec![], via_consumer: false }),
+    ];
+    let threads = vec![ThreadPlan { chan_ids: vec![Some(1), Some(2)], ops, close_channels: true }];
+    let plan = SessionPlan { opts: ConnOpts::default(), tuning: Tuning::default(), threads, owner_ops: vec![], close: CloseKind::Close, join_before_close: true };
+    let mut sched = amiquip_simrt::SchedCfg::default();
+    sched.stick_pct = *pick(&mut cs, "stick", &[90u32, 50]);
+    sched.step_cap = 60_000_000;
+    sched.hang_after_ns = 600_000_000_000;
+    let gen = Generated { plan, net, broker, sched, frame_max: 131072 };
+    let (res, world) = run_generated(&gen, cs, text, |_| {});
+    let mut rep = CaseReport::default();
+    fill_common(&mut rep, &res, &world);
+    rep.sample = serde_json::json!({"family": "flood", "deliveries_to_the_idle_consumer": n});
+    rep.count("c03.flood_sessions", 1);
+    for p in &res.run.panics {
+        rep.violate("panic", format!("{}@{}", p.thread, p.location), format!("{} panicked: {}", p.thread, p.message));
+    }
+    if let Some((sig, detail)) = hang_sig(&res.run.outcome) {
+        rep.violate("hang", sig, format!("{} deliveries waiting for a consumer that does not read: somebody waits forever: {}", n, detail));
+        return rep;
+    }
+    if rep.inconclusive.is_some() {
+        return rep;
+    }
+    for o in &res.hist.ops {
+        if let OpResult::Err(e) = &o.result {
+            rep.violate("flood-disturbed", "call-failed", format!("{} deliveries waiting for a consumer that does not read: {} failed with {}", n, crate::expect::short_op(&o.op), e));
+            return rep;
+        }
+    }
+    inbound_oracle(&mut rep, &res.hist, &world.broker);
+    rep.nontrivial = true;
+    rep.distinct = rep.trace_hash;
+    rep
 }
